@@ -622,3 +622,6 @@ mutant("M100-shard-guard-rechunks-to-chunks", ["C05", "C11"], "TARGET-COMPAT-1",
 mutant("M101-store-nofuse-on-wrong-object", ["C11"], "STORE-NOFUSE-1", (OPS, "                    op.fusable_with_successors = False\n", "                    op.pipeline.config.fusable_with_successors = False\n"), also=("OWN-MUT-1",))
 mutant("M102-pickled-kwargs-cached", ["C06"], "PICKLE-PAIR-1", (LOCAL, "        pickled_kwargs = {k: cloudpickle.dumps(v) for k, v in kwargs.items()}\n", "        key = kwargs.get(\"name\")\n        if key not in _CACHE:\n            _CACHE[key] = {k: cloudpickle.dumps(v) for k, v in kwargs.items()}\n        pickled_kwargs = _CACHE[key]\n"), (LOCAL, "def processes_create_futures_func(concurrent_executor, function: Callable[..., Any]):\n", "def processes_create_futures_func(concurrent_executor, function: Callable[..., Any]):\n    _CACHE: dict = {}\n\n"))
 mutant("M103-coord-maps-keyed-by-name", ["C15"], "PROXY-KEYS-1", (PBW, "        for cmap, axes, (arg, ind) in zip(\n            coord_maps, concat_axes, argpairs, strict=True\n        ):\n            if ind is None:\n                args.append(arg)\n            else:\n", "        plans = {a: (cm, ax) for cm, ax, (a, _i) in zip(coord_maps, concat_axes, argpairs, strict=True)}\n        for arg, ind in argpairs:\n            if ind is None:\n                args.append(arg)\n            else:\n                cmap, axes = plans[arg]\n"))
+
+mutant("M104-split-every-divides-by-len", ["C17"], "DIVZERO-1", (OPS, "        n = builtins.max(int(split_every ** (1 / (len(axis) or 1))), 2)", "        n = builtins.max(int(split_every ** (1 / len(axis))), 2)"))
+mutant("M105-spec-check-by-identity", ["C18", "C19", "C20"], "SPEC-CHECK-2", (ARRAY, "    if not all(s == specs[0] for s in specs):", "    if not all(s is specs[0] for s in specs):"))
